@@ -1520,13 +1520,14 @@ namespace bloch::compiler {
                 if (*right == 0)
                     throw BlochError(ErrorCategory::Semantic, bin->line, bin->column,
                                      "division by zero in constant integer expression");
-                return *left / *right;
+                // Divide in 64 bits and wrap like the evaluator does: INT_MIN / -1 traps in 32 bits.
+                return static_cast<int>(static_cast<long long>(*left) / *right);
             }
             if (bin->op == "%") {
                 if (*right == 0)
                     throw BlochError(ErrorCategory::Semantic, bin->line, bin->column,
                                      "modulo by zero in constant integer expression");
-                return *left % *right;
+                return static_cast<int>(static_cast<long long>(*left) % *right);
             }
             return std::nullopt;
         }
